@@ -343,7 +343,11 @@ Section ApiFacts.
     destruct (Hs s t0 P) as [Hg _]. exact (mutate_valid_partial t0 fuel 0 t Hc Hsv Hm K Hg H).
   Qed.
 
-  (* the crash of the pinned code under returns 0.29: excluded when safe_ok *)
+  (* ---------- the repaired code (commit 261d5a9: fix_notop = true): no guard needed ---------- *)
+  Lemma K_fixed : K_no_top_constant has_top true = false.
+  Proof. unfold K_no_top_constant. destruct has_top; reflexivity. Qed.
+
+  (* the crash of the pre-fix code under returns 0.29: excluded when safe_ok *)
   Theorem repair_safe_crash a inp :
     safe_ok = false -> has_top = true -> sem_false inp = false -> abstractions inp = [a] ->
     eval inp = Ok FF -> eval a = Ok UU -> repair_tree inp = Raise TypeErr.
@@ -353,7 +357,67 @@ Section ApiFacts.
   Qed.
 End ApiFacts.
 
-(* ---------- refutation of the unguarded statement; non-vacuity ---------- *)
+(* ---------- repaired code: repair / mutate return only valid inputs, unguarded ---------- *)
+Section Repaired.
+  Variable g : grammar.
+  Variable sat : tree -> Prop.
+  Variable first_parse : str -> str -> option tree.
+  Variable eval : tree -> res tv.
+  Variable has_top : bool.
+  Variable sem_false : tree -> bool.
+  Variable abstractions : tree -> list tree.
+  Variable subsolve : tree -> res tree.
+  Variable safe_ok : bool.
+  Variable mutant : tree -> nat -> res tree.
+
+  Theorem repair_valid inp t :
+    eval_correct g sat eval -> subsolve_sound g sat abstractions subsolve -> good g inp ->
+    repair_tree eval has_top sem_false abstractions subsolve safe_ok true inp = Ok (Some t) ->
+    good g t /\ sat t.
+  Proof.
+    intros Hc Hsv Hg H.
+    exact (repair_valid_partial g sat eval has_top sem_false abstractions subsolve safe_ok true inp t
+             Hc Hsv (K_fixed has_top) Hg H).
+  Qed.
+
+  Theorem repair_str_valid s t :
+    parser_sound g first_parse -> eval_correct g sat eval -> subsolve_sound g sat abstractions subsolve ->
+    repair_str first_parse eval has_top sem_false abstractions subsolve safe_ok true s = Ok (Some t) ->
+    good g t /\ sat t.
+  Proof.
+    intros Hs Hc Hsv H.
+    exact (repair_str_valid_partial g sat first_parse eval has_top sem_false abstractions subsolve safe_ok true s t
+             Hs Hc Hsv (K_fixed has_top) H).
+  Qed.
+
+  Theorem mutate_valid inp fuel k t :
+    eval_correct g sat eval -> subsolve_sound g sat abstractions subsolve -> mutant_valid g mutant -> good g inp ->
+    mutate_loop eval has_top sem_false abstractions subsolve safe_ok true mutant inp fuel k = Some (Ok t) ->
+    good g t /\ sat t.
+  Proof.
+    intros Hc Hsv Hm Hg H.
+    exact (mutate_valid_partial g sat eval has_top sem_false abstractions subsolve safe_ok true mutant inp fuel k t
+             Hc Hsv Hm (K_fixed has_top) Hg H).
+  Qed.
+
+  Theorem mutate_str_valid s fuel t :
+    parser_sound g first_parse -> eval_correct g sat eval -> subsolve_sound g sat abstractions subsolve ->
+    mutant_valid g mutant ->
+    mutate_str first_parse eval has_top sem_false abstractions subsolve safe_ok true mutant s fuel = Some (Ok t) ->
+    good g t /\ sat t.
+  Proof.
+    intros Hs Hc Hsv Hm H.
+    exact (mutate_str_valid_partial g sat first_parse eval has_top sem_false abstractions subsolve safe_ok true mutant
+             s fuel t Hs Hc Hsv Hm (K_fixed has_top) H).
+  Qed.
+
+  (* a constraint that does not mention the input and is not satisfied: nothing to return *)
+  Theorem repair_no_constant inp : has_top = false -> check_tree eval inp = Ok false ->
+    repair_tree eval has_top sem_false abstractions subsolve safe_ok true inp = Ok None.
+  Proof. intros HT C. unfold repair_tree. rewrite C, HT. reflexivity. Qed.
+End Repaired.
+
+(* ---------- what the fixes repaired (pre-fix switches); non-vacuity ---------- *)
 
 Definition ex_g : grammar :=
   [(START, [[[60;97;62]%N]]); ([60;97;62]%N, [[]; [[120]%N]])].     (* <start> ::= <a>;  <a> ::= "" | "x" *)
